@@ -474,7 +474,11 @@ func CloneExpression(expr ast.Expression) ast.Expression {
 	return expr2
 }
 
-// ClonePosition returns a copy of position pos.
+// ClonePosition returns a copy of position pos. If pos is nil, it returns
+// nil.
 func ClonePosition(pos *ast.Position) *ast.Position {
+	if pos == nil {
+		return nil
+	}
 	return &ast.Position{Line: pos.Line, Column: pos.Column, Start: pos.Start, End: pos.End}
 }
